@@ -169,6 +169,7 @@ class Runner:
         self.model = spa.Network()
         with self.model:
             self.a = spa.State(16)
+            self.a1 = spa.State(1, subdimensions=1)      # a pointer of a 1-dimensional vocabulary is not a scalar
             self.b = spa.State(16)
             self.c32 = spa.State(32)
             self.s = spa.Scalar()
@@ -224,7 +225,9 @@ class Runner:
                 vals.append(pool[self.n_other % len(pool)])
             else:
                 vals.append(self.route(e))
-        c = {"z": 0, "s": spa.dot(self.a, spa.sym.A), "p": self.a, "u": object(), "m": None}[cond]
+        self.n_p = getattr(self, "n_p", 0) + (cond == "p")
+        c = {"z": 0, "s": spa.dot(self.a, spa.sym.A), "p": self.a if self.n_p % 2 else self.a1, "u": object(),
+             "m": None}[cond]
         inside = bool(self.lex)
         try:
             if name is None:
